@@ -13,12 +13,12 @@ namespace StirVerif.C08
 
 /-- "One OSSPS sub-iteration on subset S maps lambda to clamp(lambda + zeta N grad_S Phi(lambda) / D, 0, upper bound)":
     voxel `j` of the image after `update_estimate`, in terms of voxel `j` of the current image (non-identifiable voxels
-    zeroed at the first sub-iteration of a run), of the penalised sub-gradient of the scheduled subset at that image, and of
+    zeroed at the start of every sub-iteration), of the penalised sub-gradient of the scheduled subset at that image, and of
     the denominator in use (`C08_denominator_used`).  The order of operations is the code's: `((g·N)/D)·ζ`. -/
 theorem C08_ossps_formula (p : Params) (obj : Objective) (start : Int) (s : State) (j : Nat) (xj gj dj : Rat)
-    (hx : (currentImage obj (s.k == start) s.image)[j]? = some xj)
-    (hg : (obj.grad (subsetNum s.k p.startSubset p.numSubsets) (currentImage obj (s.k == start) s.image))[j]? = some gj)
-    (hd : (denomUsed obj (s.k == start) (currentImage obj (s.k == start) s.image) s.denom)[j]? = some dj) :
+    (hx : (currentImage obj s.image)[j]? = some xj)
+    (hg : (obj.grad (subsetNum s.k p.startSubset p.numSubsets) (currentImage obj s.image))[j]? = some gj)
+    (hd : (denomUsed obj (s.k == start) (currentImage obj s.image) s.denom)[j]? = some dj) :
     (updateEstimate p obj start s).image[j]? =
       some (thresholdUpperLower 0 p.upperBound
               (xj + gj * (p.numSubsets : Rat) / dj * relaxation p.alpha p.gamma s.k p.numSubsets)) := by
@@ -104,67 +104,44 @@ theorem C08_D_ge_small_fails :
     thresholded, or the stored thresholded one) -/
 theorem C08_D_positive_in_run (p : Params) (obj : Objective) (start : Int) (img d : Img) (n : Nat) :
     let s := loop p obj start n ⟨img, d, start⟩
-    ∀ v ∈ denomUsed obj (s.k == start) (currentImage obj (s.k == start) s.image) s.denom, 0 < v :=
+    ∀ v ∈ denomUsed obj (s.k == start) (currentImage obj s.image) s.denom, 0 < v :=
   denomUsed_pos_in_run p obj start img d n
 
 /-! ## relaxation schedule -/
 
 /-- The clause of the property: "zeta_n = alpha / (1 + gamma n) the relaxation for full iteration n", i.e. for every
-    sub-iteration `k = n·N + r`, `1 ≤ r ≤ N`, of full iteration `n` (0-based).  FALSE of the code: `C08_relaxation_schedule_fails`. -/
-def C08_relaxation_schedule : Prop :=
-  ∀ (alpha gamma : Rat) (N n r : Int), 1 ≤ N → 0 ≤ n → 1 ≤ r → r ≤ N →
-    relaxation alpha gamma (n * N + r) N = alpha / (1 + gamma * (n : Rat))
-
-/-- what holds: all sub-iterations of full iteration `n` except the last one use `alpha/(1+gamma n)` …
-    (missing for the full clause: `r = N`) -/
-theorem C08_relaxation_schedule_partial (alpha gamma : Rat) (N n r : Int) (hN : 1 ≤ N) (hn : 0 ≤ n) (hr : 1 ≤ r)
-    (hrN : r < N) : relaxation alpha gamma (n * N + r) N = alpha / (1 + gamma * (n : Rat)) := by
+    sub-iteration `k = n·N + r`, `1 ≤ r ≤ N`, of full iteration `n` (0-based) — all of them, the last one (`r = N`) included.
+    (Before the repair `fix: OSSPS relaxation uses the 0-based full iteration number` the code divided the 1-based
+    `subiteration_num` itself and the last sub-iteration of every full iteration used `alpha/(1+gamma (n+1))`.) -/
+theorem C08_relaxation_schedule (alpha gamma : Rat) (N n r : Int) (hN : 1 ≤ N) (hn : 0 ≤ n) (hr : 1 ≤ r) (hrN : r ≤ N) :
+    relaxation alpha gamma (n * N + r) N = alpha / (1 + gamma * (n : Rat)) := by
   unfold relaxation
-  rw [tdiv_block N n r hN hn (by omega) hrN]
+  rw [tdiv_block_pred N n r hN hn hr hrN]
 
-/-- … and the last sub-iteration of full iteration `n` already uses the value of iteration `n+1`
-    (`subiteration_num / num_subsets` with the 1-based counter) -/
-theorem C08_relaxation_last_subiteration (alpha gamma : Rat) (N n : Int) (hN : 1 ≤ N) (hn : 0 ≤ n) :
-    relaxation alpha gamma (n * N + N) N = alpha / (1 + gamma * ((n + 1 : Int) : Rat)) := by
-  unfold relaxation
-  rw [tdiv_block_last N n hN hn]
-
-/-- negative witness (replayed on the implementation by the harness: KNOWN-CANDIDATE
-    `relaxation:last-subiteration-of-each-full-iteration-uses-next-n`): two subsets, alpha = 1, gamma = 1/10 — the two
-    sub-iterations of the first full iteration are relaxed differently, and with one subset the very first iteration is
-    relaxed by alpha/(1+gamma) instead of alpha -/
-theorem C08_relaxation_schedule_fails : ¬ C08_relaxation_schedule := by
-  intro h
-  have h1 := h 1 (1 / 10) 2 0 2 (by norm_num) (by norm_num) (by norm_num) (by norm_num)
-  have e : (0 * 2 + 2 : Int).tdiv 2 = 1 := by decide
-  unfold relaxation at h1
-  rw [e] at h1
-  norm_num at h1
-
-theorem C08_relaxation_first_iteration_one_subset (alpha gamma : Rat) :
-    relaxation alpha gamma 1 1 = alpha / (1 + gamma) := by
-  have e : (1 : Int).tdiv 1 = 1 := by decide
-  unfold relaxation
-  rw [e]
-  simp
+/-- in particular the first full iteration is relaxed by `alpha` itself, for every number of subsets -/
+theorem C08_relaxation_first_iteration (alpha gamma : Rat) (N r : Int) (hN : 1 ≤ N) (hr : 1 ≤ r) (hrN : r ≤ N) :
+    relaxation alpha gamma r N = alpha := by
+  have := C08_relaxation_schedule alpha gamma N 0 r hN (le_refl _) hr hrN
+  simpa using this
 
 /-- the relaxation is positive, at most alpha, and never increases from one sub-iteration to the next -/
 theorem C08_relaxation_pos_antitone (alpha gamma : Rat) (N k k' : Int) (ha : 0 < alpha) (hg : 0 ≤ gamma) (hN : 1 ≤ N)
-    (hk : 0 ≤ k) (hkk : k ≤ k') :
+    (hk : 1 ≤ k) (hkk : k ≤ k') :
     0 < relaxation alpha gamma k' N ∧ relaxation alpha gamma k' N ≤ relaxation alpha gamma k N ∧
       relaxation alpha gamma k N ≤ alpha := by
   unfold relaxation
-  have hk' : 0 ≤ k' := le_trans hk hkk
-  have e1 : k.tdiv N = k / N := Int.tdiv_eq_ediv_of_nonneg hk
-  have e2 : k'.tdiv N = k' / N := Int.tdiv_eq_ediv_of_nonneg hk'
+  have hk0 : 0 ≤ k - 1 := by omega
+  have hk' : 0 ≤ k' - 1 := by omega
+  have e1 : (k - 1).tdiv N = (k - 1) / N := Int.tdiv_eq_ediv_of_nonneg hk0
+  have e2 : (k' - 1).tdiv N = (k' - 1) / N := Int.tdiv_eq_ediv_of_nonneg hk'
   rw [e1, e2]
   have hNpos : 0 < N := by omega
-  have q0 : 0 ≤ k / N := Int.ediv_nonneg hk (le_of_lt hNpos)
-  have qle : k / N ≤ k' / N := Int.ediv_le_ediv hNpos hkk
-  have q0r : (0 : Rat) ≤ ((k / N : Int) : Rat) := by exact_mod_cast q0
-  have qler : ((k / N : Int) : Rat) ≤ ((k' / N : Int) : Rat) := by exact_mod_cast qle
-  have d1 : 0 < 1 + gamma * ((k / N : Int) : Rat) := by nlinarith
-  have d2 : 0 < 1 + gamma * ((k' / N : Int) : Rat) := by nlinarith
+  have q0 : 0 ≤ (k - 1) / N := Int.ediv_nonneg hk0 (le_of_lt hNpos)
+  have qle : (k - 1) / N ≤ (k' - 1) / N := Int.ediv_le_ediv hNpos (by omega)
+  have q0r : (0 : Rat) ≤ (((k - 1) / N : Int) : Rat) := by exact_mod_cast q0
+  have qler : (((k - 1) / N : Int) : Rat) ≤ (((k' - 1) / N : Int) : Rat) := by exact_mod_cast qle
+  have d1 : 0 < 1 + gamma * (((k - 1) / N : Int) : Rat) := by nlinarith
+  have d2 : 0 < 1 + gamma * (((k' - 1) / N : Int) : Rat) := by nlinarith
   refine ⟨div_pos ha d2, ?_, ?_⟩
   · apply div_le_div_of_nonneg_left (le_of_lt ha) d1
     nlinarith
@@ -181,19 +158,21 @@ theorem C08_relaxation_pos_antitone (alpha gamma : Rat) (N k k' : Int) (ha : 0 <
     denominator, counter) of the uninterrupted run.  Side conditions, each necessary (negative witnesses below):
     * `hcurv`: if a prior is present and its curvature is declared image independent, it is image independent
       (quadratic prior: `C08_quadratic_curvature_independent`; no prior: vacuous);
-    * `hpos`: `enforce_initial_positivity` is off (the OSSPS default) or the saved image has no zero;
-    * `hfix`: `fill_nonidentifiable_target_parameters(·,0)` leaves the saved image alone
-      (`C08_restart_eq_gradient_vanishing` derives it when the gradient vanishes on those voxels, e.g. without prior). -/
+    * `hpos`: `enforce_initial_positivity` is off (the OSSPS default) or the saved image has no zero.
+    No condition on the non-identifiable voxels: the repaired code (`fix: OSSPS zeroes the non-identifiable voxels at every
+    sub-iteration`) zeroes them at the start of every sub-iteration of every run, so the re-zeroing done by the resumed run's
+    first sub-iteration is also done by the uninterrupted run (before the repair the theorem needed the extra hypothesis that
+    `fill_nonidentifiable_target_parameters(·,0)` leaves the saved image alone, which a penalty falsifies:
+    `C08_restart_nonidentifiable_with_prior`). -/
 theorem C08_restart_eq (p : Params) (obj : Objective) (target img0 d0 : Img) (k : Nat) (hk : 1 ≤ k)
     (hset : setUp p obj 1 target = some (img0, d0)) (hden : p.denominatorOnes = false)
     (hcurv : obj.priorIsZero = false → obj.curvDepends = false → ∀ a b, obj.curv a = obj.curv b)
-    (hpos : p.enforceInitialPositivity = false ∨ ∀ v ∈ (loop p obj 1 k ⟨img0, d0, 1⟩).image, 0 < v)
-    (hfix : obj.fillNonIdent (loop p obj 1 k ⟨img0, d0, 1⟩).image = (loop p obj 1 k ⟨img0, d0, 1⟩).image) :
+    (hpos : p.enforceInitialPositivity = false ∨ ∀ v ∈ (loop p obj 1 k ⟨img0, d0, 1⟩).image, 0 < v) :
     setUp p obj ((k : Int) + 1) (loop p obj 1 k ⟨img0, d0, 1⟩).image = some ((loop p obj 1 k ⟨img0, d0, 1⟩).image, d0) ∧
     ∀ m : Nat, 1 ≤ m →
       loop p obj ((k : Int) + 1) m ⟨(loop p obj 1 k ⟨img0, d0, 1⟩).image, d0, (k : Int) + 1⟩
         = loop p obj 1 m (loop p obj 1 k ⟨img0, d0, 1⟩) := by
-  refine ⟨?_, restart_core p obj img0 d0 k hk hcurv hfix⟩
+  refine ⟨?_, restart_core p obj img0 d0 k hk hcurv⟩
   obtain ⟨hd, _, _, _, _⟩ := setUp_some p obj 1 target img0 d0 hset
   -- set_up succeeds again: its checks do not depend on the image or on the (valid) start sub-iteration
   have hsome : ∀ t : Img, setUp p obj ((k : Int) + 1) t
@@ -216,10 +195,9 @@ theorem C08_restart_eq_run (p : Params) (obj : Objective) (target img0 d0 : Img)
     (hK : (k : Int) < p.numSubiterations)
     (hset : setUp p obj 1 target = some (img0, d0)) (hden : p.denominatorOnes = false)
     (hcurv : obj.priorIsZero = false → obj.curvDepends = false → ∀ a b, obj.curv a = obj.curv b)
-    (hpos : p.enforceInitialPositivity = false ∨ ∀ v ∈ (loop p obj 1 k ⟨img0, d0, 1⟩).image, 0 < v)
-    (hfix : obj.fillNonIdent (loop p obj 1 k ⟨img0, d0, 1⟩).image = (loop p obj 1 k ⟨img0, d0, 1⟩).image) :
+    (hpos : p.enforceInitialPositivity = false ∨ ∀ v ∈ (loop p obj 1 k ⟨img0, d0, 1⟩).image, 0 < v) :
     run p obj ((k : Int) + 1) (loop p obj 1 k ⟨img0, d0, 1⟩).image = run p obj 1 target := by
-  obtain ⟨h1, h2⟩ := C08_restart_eq p obj target img0 d0 k hk hset hden hcurv hpos hfix
+  obtain ⟨h1, h2⟩ := C08_restart_eq p obj target img0 d0 k hk hset hden hcurv hpos
   unfold run
   rw [h1, hset]
   simp only [reconstruct]
@@ -240,24 +218,14 @@ theorem C08_restart_eq_run (p : Params) (obj : Objective) (target img0 d0 : Img)
       exact ih _
   rw [hadd]
 
-/-- `hfix` for free when the penalised gradient vanishes on the non-identifiable voxels (no prior: the back projection does
-    not reach them): they are zeroed at the first sub-iteration and stay exactly 0, so the saved iterate is a fixed point of
-    `fill_nonidentifiable_target_parameters` -/
-theorem C08_restart_eq_gradient_vanishing (p : Params) (obj : Objective) (mask : List Bool) (target img0 d0 : Img) (k : Nat)
-    (hk : 1 ≤ k) (hset : setUp p obj 1 target = some (img0, d0)) (hden : p.denominatorOnes = false)
-    (hub : 0 ≤ p.upperBound) (hfill : obj.fillNonIdent = fillMask mask) (hlen : img0.length ≤ mask.length)
-    (hg : ∀ S y, ZeroOn mask (obj.grad S y))
-    (hcurv : obj.priorIsZero = false → obj.curvDepends = false → ∀ a b, obj.curv a = obj.curv b)
-    (hpos : p.enforceInitialPositivity = false ∨ ∀ v ∈ (loop p obj 1 k ⟨img0, d0, 1⟩).image, 0 < v) :
-    ∀ m : Nat, 1 ≤ m →
-      loop p obj ((k : Int) + 1) m ⟨(loop p obj 1 k ⟨img0, d0, 1⟩).image, d0, (k : Int) + 1⟩
-        = loop p obj 1 m (loop p obj 1 k ⟨img0, d0, 1⟩) := by
-  obtain ⟨k', rfl⟩ : ∃ k', k = k' + 1 := ⟨k - 1, by omega⟩
-  obtain ⟨hz, hl⟩ := loop_zeroOn p obj 1 mask img0 d0 k' hub hfill hg
-  have hfix : obj.fillNonIdent (loop p obj 1 (k' + 1) ⟨img0, d0, 1⟩).image = (loop p obj 1 (k' + 1) ⟨img0, d0, 1⟩).image := by
-    rw [hfill]
-    exact fillMask_eq_self mask _ (le_trans hl hlen) hz
-  exact (C08_restart_eq p obj target img0 d0 (k' + 1) hk hset hden hcurv hpos hfix).2
+/-- the non-identifiable voxels are exactly 0 in every iterate of every run when the penalised gradient vanishes on them (no
+    prior: the back projection does not reach them) — and the iterates never get longer than the start image -/
+theorem C08_nonidentifiable_stay_zero (p : Params) (obj : Objective) (start : Int) (mask : List Bool) (img d : Img) (n : Nat)
+    (hub : 0 ≤ p.upperBound) (hfill : obj.fillNonIdent = fillMask mask)
+    (hg : ∀ S y, ZeroOn mask (obj.grad S y)) :
+    ZeroOn mask (loop p obj start (n + 1) ⟨img, d, start⟩).image ∧
+      (loop p obj start (n + 1) ⟨img, d, start⟩).image.length ≤ img.length :=
+  loop_zeroOn p obj start mask img d n hub hfill hg
 
 /-- the surrogate curvature of the (real) quadratic prior does not depend on the image: `hcurv` of `C08_restart_eq` holds for
     every `Problem` whose prior is the quadratic prior -/
@@ -288,14 +256,14 @@ def witParams : Params :=
   { numSubsets := 1, startSubset := 0, numSubiterations := 2, alpha := 1, gamma := 0, upperBound := 10,
     enforceInitialPositivity := false }
 
-/-- negative witness for `hfix` (replayed on the implementation: KNOWN-CANDIDATE
+/-- the configuration that broke the restart clause before the repair (then a known candidate
     `restart:fill-nonidentifiable-rezeroes-penalty-driven-voxels`): with a prior, the penalty gradient moves the zero-sensitivity
-    voxel away from 0 (`1/2` after the first sub-iteration); the resumed run zeroes it again, the uninterrupted run does not:
-    the second iterates differ although every other hypothesis of `C08_restart_eq` holds. -/
-theorem C08_restart_fails_nonidentifiable_with_prior :
+    voxel away from 0 (`1/2` after the first sub-iteration).  The repaired code zeroes it again at the start of the second
+    sub-iteration in the uninterrupted run too, so the resumed run (last line) reproduces it exactly. -/
+theorem C08_restart_nonidentifiable_with_prior :
     setUp witParams witObjPrior 1 [5, 1] = some ([5, 1], [0, 1]) ∧
     loop witParams witObjPrior 1 1 ⟨[5, 1], [0, 1], 1⟩ = ⟨[1 / 2, 1 / 3], [2, 3], 2⟩ ∧
-    (loop witParams witObjPrior 1 2 ⟨[5, 1], [0, 1], 1⟩).image = [5 / 12, 1 / 18] ∧
+    (loop witParams witObjPrior 1 2 ⟨[5, 1], [0, 1], 1⟩).image = [1 / 6, 0] ∧
     (loop witParams witObjPrior 2 1 ⟨[1 / 2, 1 / 3], [0, 1], 2⟩).image = [1 / 6, 0] := by
   refine ⟨?_, ?_, ?_, ?_⟩ <;>
   · simp [setUp, precomputeDenominator, loop, step, updateEstimate, currentImage, denomUsed, denomStored, additiveUpdate,
@@ -335,12 +303,12 @@ theorem C08_restart_needs_setup :
     first.denom = [2, 3] ∧
     (reconstruct witParams witObjPrior 1 [5, 1] first.denom).denom = [4, 5] ∧
     (reconstruct witParams witObjPrior 1 [5, 1] first.denom).image ≠ first.image := by
-  have h1 : reconstruct witParams witObjPrior 1 [5, 1] [0, 1] = ⟨[5 / 12, 1 / 18], [2, 3], 3⟩ := by
+  have h1 : reconstruct witParams witObjPrior 1 [5, 1] [0, 1] = ⟨[1 / 6, 0], [2, 3], 3⟩ := by
     simp [reconstruct, loop, step, updateEstimate, currentImage, denomUsed, denomStored, additiveUpdate,
       workDenominator, recomputePenalty, witObjPrior, witParams, fillMask, thresholdMinToSmallPositiveValue, minPositive,
       minPosStep, thresholdLower, thresholdUpperLower, relaxation, smallNumber]
     norm_num
-  have h2 : reconstruct witParams witObjPrior 1 [5, 1] [2, 3] = ⟨[27 / 80, 33 / 100], [4, 5], 3⟩ := by
+  have h2 : reconstruct witParams witObjPrior 1 [5, 1] [2, 3] = ⟨[3 / 20, 7 / 25], [4, 5], 3⟩ := by
     simp [reconstruct, loop, step, updateEstimate, currentImage, denomUsed, denomStored, additiveUpdate,
       workDenominator, recomputePenalty, witObjPrior, witParams, fillMask, thresholdMinToSmallPositiveValue, minPositive,
       minPosStep, thresholdLower, thresholdUpperLower, relaxation, smallNumber]
@@ -364,9 +332,9 @@ example : (updateEstimate witParams witObjPrior 1 ⟨[5, 1], [0, 1], 1⟩).image
 /-- `C08_in_bounds` / `C08_in_bounds_run`: the default upper bound (FLT_MAX) and any user value ≥ 0 qualify -/
 example : (0 : Rat) ≤ witParams.upperBound := by simp [witParams]
 
-/-- `C08_relaxation_schedule_partial`: 4 subsets, full iteration 2, sub-iterations 9, 10, 11 (r = 1, 2, 3) -/
-example : relaxation 1 (1 / 10) (2 * 4 + 3) 4 = 1 / (1 + 1 / 10 * ((2 : Int) : Rat)) :=
-  C08_relaxation_schedule_partial 1 (1 / 10) 4 2 3 (by norm_num) (by norm_num) (by norm_num) (by norm_num)
+/-- `C08_relaxation_schedule`: 4 subsets, full iteration 2, its last sub-iteration 12 (r = 4) -/
+example : relaxation 1 (1 / 10) (2 * 4 + 4) 4 = 1 / (1 + 1 / 10 * ((2 : Int) : Rat)) :=
+  C08_relaxation_schedule 1 (1 / 10) 4 2 4 (by norm_num) (by norm_num) (by norm_num) (by norm_num)
 
 /-- `C08_relaxation_pos_antitone`: the OSSPS defaults alpha = 1, gamma = 0.1 -/
 example : 0 < relaxation 1 (1 / 10) 7 3 ∧ relaxation 1 (1 / 10) 7 3 ≤ relaxation 1 (1 / 10) 2 3 ∧ relaxation 1 (1 / 10) 2 3 ≤ 1 :=
@@ -382,17 +350,12 @@ def witObjNoPrior : Objective where
   curvDepends := true
   fillNonIdent := fillMask [true, false]
 
-/-- `C08_restart_eq_gradient_vanishing` (hence `C08_restart_eq`): all hypotheses hold for the no-prior witness, start image
-    `[5, 3]`, resume after sub-iteration 1 -/
-example : ∀ m : Nat, 1 ≤ m →
-    loop witParams witObjNoPrior ((1 : Nat) + 1 : Int) m ⟨(loop witParams witObjNoPrior 1 1 ⟨[5, 3], [0, 2], 1⟩).image, [0, 2], ((1 : Nat) : Int) + 1⟩
-      = loop witParams witObjNoPrior 1 m (loop witParams witObjNoPrior 1 1 ⟨[5, 3], [0, 2], 1⟩) := by
-  apply C08_restart_eq_gradient_vanishing witParams witObjNoPrior [true, false] [5, 3] [5, 3] [0, 2] 1 (le_refl _)
-  · simp [setUp, precomputeDenominator, witParams, witObjNoPrior]
-  · rfl
+/-- `C08_nonidentifiable_stay_zero`: all hypotheses hold for the no-prior witness -/
+example : ZeroOn [true, false] (loop witParams witObjNoPrior 1 (3 + 1) ⟨[5, 3], [0, 2], 1⟩).image ∧
+    (loop witParams witObjNoPrior 1 (3 + 1) ⟨[5, 3], [0, 2], 1⟩).image.length ≤ [(5 : Rat), 3].length := by
+  apply C08_nonidentifiable_stay_zero witParams witObjNoPrior 1 [true, false] [5, 3] [0, 2] 3
   · simp [witParams]
   · rfl
-  · simp
   · intro S y j hj v hv
     simp only [witObjNoPrior] at hv
     match y, hv with
@@ -404,14 +367,12 @@ example : ∀ m : Nat, 1 ≤ m →
     | [], hv => simp at hv
     | [_], hv => simp at hv
     | _ :: _ :: _ :: _, hv => simp at hv
-  · intro h; simp [witObjNoPrior] at h
-  · left; rfl
 
-/-- `C08_restart_eq` with a prior: on a problem WITHOUT non-identifiable voxels the quadratic-prior witness satisfies `hfix` -/
-example :
-    let obj := { witObjPrior with fillNonIdent := fun x => x }
-    obj.fillNonIdent (loop witParams obj 1 1 ⟨[5, 1], [0, 1], 1⟩).image = (loop witParams obj 1 1 ⟨[5, 1], [0, 1], 1⟩).image ∧
-    (obj.priorIsZero = false → obj.curvDepends = false → ∀ a b, obj.curv a = obj.curv b) :=
-  ⟨rfl, fun _ _ _ _ => rfl⟩
+/-- `C08_restart_eq`: every hypothesis holds for the quadratic-prior witness WITH a non-identifiable voxel, resume after 1 -/
+example : ∀ m : Nat, 1 ≤ m →
+    loop witParams witObjPrior ((1 : Nat) + 1 : Int) m ⟨(loop witParams witObjPrior 1 1 ⟨[5, 1], [0, 1], 1⟩).image, [0, 1], ((1 : Nat) : Int) + 1⟩
+      = loop witParams witObjPrior 1 m (loop witParams witObjPrior 1 1 ⟨[5, 1], [0, 1], 1⟩) :=
+  (C08_restart_eq witParams witObjPrior [5, 1] [5, 1] [0, 1] 1 (le_refl _)
+    (by simp [setUp, precomputeDenominator, witParams, witObjPrior]) rfl (fun _ _ _ _ => rfl) (Or.inl rfl)).2
 
 end StirVerif.C08
